@@ -64,6 +64,10 @@ func c10Release(op *StoreOp, ns string) *release.Release {
 	if c%3 == 0 {
 		r.Info.Deleted = helmtime.Time{Time: t0.Add(48 * time.Hour)}
 	}
+	if c == 12 {
+		// more than 1 MiB of JSON that gzips to a few kilobytes (well inside the object size limit of a real cluster)
+		r.Manifest += "# " + strings.Repeat("padding padding padding padding\n# ", 50000)
+	}
 	if c%4 == 1 {
 		r.Config = nil
 	}
@@ -568,6 +572,9 @@ func genC10(seed, index uint64, tier string) *Plan {
 		if op.Op == "create" || op.Op == "update" {
 			op.Status = c10Statuses[g.N(len(c10Statuses))]
 			op.Content = g.N(12)
+			if g.Chance(0.04) {
+				op.Content = 12
+			}
 			if g.Chance(0.3) {
 				op.Labels = map[string]string{"team": g.Pick("red", "blue"), "verif.example/x": "y_1.2"}
 			}
